@@ -7,7 +7,10 @@ use super::scheduler::*;
 use std::sync::{Arc};
 use std::marker::{PhantomData};
 use futures::prelude::*;
+#[cfg(not(desync_verif))]
 use futures::channel::oneshot;
+#[cfg(desync_verif)]
+use crate::vsched::oneshot;
 use futures::future::{Future, BoxFuture};
 
 use std::cell::{UnsafeCell};
@@ -248,7 +251,10 @@ impl<T: 'static+Send> Desync<T> {
 
 impl<T: Send> Drop for Desync<T> {
     fn drop(&mut self) {
+        #[cfg(not(desync_verif))]
         use std::thread;
+        #[cfg(desync_verif)]
+        use crate::vsched::thread;
 
         // Take the data we're about to drop from the object
         let data = DataRef::<T>(self.data);
